@@ -699,6 +699,36 @@ pub fn worker(ctx: &mut Ctx) {
         }
     }
 
+    // K. Markdown markup variants of one sentence, consecutively on the same linter (same words,
+    //    different markup and offsets: chunk-cache entries must not leak between them)
+    {
+        let n = ctx.budget(2_500, 60_000);
+        let mut rng = ctx.rng_global("sweep-K");
+        for _ in 0..n {
+            unit += 1;
+            let mut r = Rng(rng.next());
+            if !ctx.mine(unit) {
+                continue;
+            }
+            let s0 = r.pick(&corpus.sentences).clone();
+            let words: Vec<&str> = s0.split(' ').collect();
+            if words.len() < 3 || s0.contains('\n') {
+                continue;
+            }
+            let (cfg, dialect) = stream.cfg_for(unit);
+            let k = r.below(words.len());
+            let wraps: [(&str, &str); 7] = [("**", "**"), ("", ""), ("*", "*"), ("[", "](http://a.b)"), ("`", "`"), ("~~", "~~"), ("<b>", "</b>")];
+            for (o, c) in wraps {
+                let mut v: Vec<String> = words.iter().map(|w| w.to_string()).collect();
+                v[k] = format!("{o}{}{c}", v[k]);
+                let line = v.join(" ");
+                for text in [line.clone(), format!("- {line}\n- {s0}"), format!("{s0}\n\n{line}")] {
+                    run!(Case { fam: "markup-variants", fe: Fe::Md, wrap: Wrap::None, text, cfg: cfg.clone(), dialect });
+                }
+            }
+        }
+    }
+
     // J. configurations x dialects on rule sentences
     {
         let n = ctx.budget(15_000, 400_000);
